@@ -45,18 +45,41 @@ META = {
             "(else => f). PARTIAL: letrec — expansion = native meaning with #f instead of #<undefined> in not-yet-initialised "
             "variables (derived_letrec_partial; R7RS leaves that unspecified; observable difference proved at a witness), and exact "
             "(closed) for one binding whose init is a lambda expression (t01_2_letrec_single: the shape named let expands to); or with >= 2 "
-            "operands, cond (t => f) and (t) clauses followed by more — these rules bind var1/temp: what the expansion computes is "
-            "characterised next to the native meaning (same computation plus one allocated variable cell and the extra binding: "
-            "derived_or_partial, derived_cond_test_partial, derived_cond_arrow_partial), equality up to that cell is proved when the "
-            "first test is true (derived_or_first_true), the capture (known finding) is proved at witnesses for var1, temp, atom-key "
-            "(*_capture_expansion_witness); the general equivalence under 'identifier not free' is NOT proved: it needs invariance of "
-            "Spec.Eval under an unused binding plus an unreachable store cell, which is false as Spec.Eval stands for programs that "
-            "externalise cyclic data (depth bound = store size); cond (t) final: native #<void> vs expansion #f when t is false "
-            "(derived_cond_test_final, cond_test_final_differs; R7RS unspecified; the REAL VM answers #f, i.e. Spec.Eval's 'void' is "
-            "not the implementation's choice here — not exercised by the generator); case (else r ...): native evaluates the key, "
-            "expansion does not (derived_case_else_partial). OPEN (first half only): case clauses with a datum list (the expansion's "
-            "(memv k '(...)) allocates the quoted list, the native meaning does not), case with a compound key (atom-key), delay / "
-            "delay-force (the prelude represents promises as lists and force as a library procedure; Spec.Eval has native promise "
+            "operands, cond (t => f) and (t) clauses followed by more, case with a compound key, case clauses with a datum list — "
+            "these expansions allocate cells the native meaning does not have (the variable var1 / temp / atom-key; the quoted list "
+            "of (memv k '(d ...))) and run the remaining sub-forms under one more binding, so the outcomes cannot be equal states. "
+            "CLOSED UP TO THOSE CELLS, direction native => expansion (t01_2_or, t01_2_cond_test, t01_2_cond_arrow, t01_2_case_key, "
+            "t01_2_case_body, t01_2_case_arrow; ExpandsAndAgreesUpToExtra name k use rho st): from every well-formed state (WFSt: no "
+            "dangling locations — an invariant of evaluation, wf_evalN / wf_runSession, true of initSt) and under the decidable "
+            "hypothesis 'the binder identifier occurs nowhere in the sub-forms evaluated under it' (mentions = false: stronger than "
+            "'not free'; the known finding C01-prelude-macro-capture is the negation witness, *_capture_expansion_witness), whenever "
+            "the native form has a definite outcome with fuel n, the expansion has with fuel n+k (k = 3,3,2,2,1,1) the same kind of "
+            "outcome, the same error class and output log, and values / globals / stores related by an injective renaming of "
+            "locations that fixes the initial store (ResRel f (VRel f); agrees_observables: the printed value is the same when the "
+            "native value is not cyclic); by outcome_unique it is the only definite outcome of the expansion. For case clauses with a "
+            "datum list additionally: the key is a variable or constant (atomKey: what rule 1 leaves), the data are ones quote turns "
+            "into atoms (simpleAtom: booleans, characters, (), exact integers, symbols, strings — a pair or vector datum would need "
+            "one more allocation argument, an inexact number is a syntax error of Spec.Eval's quote), memv not shadowed and globally "
+            "the primitive (the expansion names it). Main lemma extra_cell_invariance (Lemmas/EvalExtra*.lean, ~2600 lines; induction "
+            "on the fuel through every special form, every primitive, apply/eval/force/map/for-each; relation: fixed injective "
+            "location map f with allocation in lock step f(size+i) = size'+i, cells/globals related, closures with the same code and "
+            "environments agreeing on every name outside a list B of names the code does not mention). It is stated for the GUARDED "
+            "native run guardN (Lemmas/EvalExtraCut.lean): valToDatum, listOfVal, equalVal, memWalk, zipArgs take their fuel from "
+            "store.size+1 and do NOT signal exhaustion, so display/write/eval/equal?/length/... of CYCLIC data depend on the number of "
+            "cells — or_cyclic_display_differs is a concrete session on which (or #f (display p)) and its expansion print different "
+            "text in Spec.Eval (valToDatum_cyclic_fuel_matters the one-cell core) — guardN turns 'a store-size-fuelled helper ran "
+            "into its bound' into a time-out; it agrees with evalN wherever definite (guarded_refines) and the helpers are monotone "
+            "from there (valToDatum_stable, listOfVal_stable, equalVal_stable, memWalk_stable, zipArgs_stable). NOT proved: the "
+            "converse direction (expansion definite => native definite; needs the simulation from the larger store to the smaller, "
+            "i.e. a depth bound for acyclic data), freeness in the precise sense (bound occurrences of var1 are excluded too), pair / "
+            "vector data in case clauses. What the expansions compute is also characterised as before (derived_or_partial, "
+            "derived_cond_test_partial, derived_cond_arrow_partial, derived_or_first_true). cond (t) final: native #<void> vs expansion "
+            "#f when t is false (derived_cond_test_final, cond_test_final_differs; R7RS unspecified; the REAL VM answers #f, i.e. "
+            "Spec.Eval's 'void' is not the implementation's choice here — not exercised by the generator): excluded. case (else r ...): "
+            "CLOSED exactly (same state) from every state in which the key evaluates without effect (t01_2_case_else; a constant key "
+            "in every state); with an unbound key the two differ (case_else_unbound_key_differs: native error, expansion the body). "
+            "OPEN (first half only): delay / delay-force (the prelude represents promises as lists and force as a library procedure; "
+            "Spec.Eval has native promise "
             "cells: a change of representation). T01.3 (compiler correctness: compile+run of Vm/Compile.lean + Vm/Machine.lean "
             "agrees with Spec.Eval), ALL PARTIAL, on the model machine Vm.step over an abstract heap with explicit assumed law "
             "structures. STAGE 1 success (compile_correct_stage1_partial, Lemmas/CompileCorrect*.lean): closure-free fragment "
@@ -163,7 +186,7 @@ META = {
             "(macros expanded inside quasiquoted data 9750711; free variables of unquoted expressions not captured f2dec47; "
             "quasiquoted vector template shared between evaluations e0db8cb; case with a final => clause evaluating => as a "
             "variable c92a4af, found by the generator), three known findings (dotted unquote `(a . ,e); top-level begin with "
-            "definitions; prelude macros capturing var1 / temp / atom-key).",
+            "definitions; prelude macros capturing var1 / temp / atom-key). STAGE 3, continued (Lemmas/CompileCorrect3{Concrete,Err,Rec}*.lean, statements in Lemmas/CompileCorrect3Props.lean), all PARTIAL: (i) Laws3 and ListLaws are THEOREMS on the concrete heap model (laws3_concrete, listLaws3_concrete) except `call`, the behaviour of the first-order builtins, which stays the one assumed law; Laws3 was restated first because on the real heap ENTER copies internal-definition slots from the CLOSURE environment (internal slots are Undefined only because closure environments are never written); (ii) the error case of stage 3 (compile_correct_stage3_error_partial, closure_call_stage3_error_partial) incl. errors in initialisers of internal definitions and both arity errors, additional assumed law ErrLaws3 (proved on the toy heap, dispatch part on the concrete heap); (iii) recursion through internal definitions: blocks of consecutive lambda-initialised definitions may be self/mutually recursive (compile_correct_stage3_rec_partial); a block may not be interrupted by a non-lambda definition. Still open: builtin laws on the concrete heap, quasiquote, call/cc, eval/map/for-each in the compiler theorem, GC interleaving (covered separately by C03/C13).",
     "technique": "Lean 4 definitional interpreter as specification + proved frame/independence theorem, compiler-model operand "
                  "order, fuel monotonicity, derived-form expansion theorems (matcher, all uses) and expansion-vs-native evaluation "
                  "theorems; generated differential testing of Vm::eval against the specification "
@@ -225,6 +248,30 @@ THEOREMS = [
     "Marwood.Proofs.C01.derived_case_else_arrow",
     "Marwood.Proofs.C01.derived_case_else_partial",
     "Marwood.Proofs.C01.case_capture_expansion_witness",
+    "Marwood.Proofs.C01.guarded_refines",
+    "Marwood.Proofs.C01.extra_cell_invariance",
+    "Marwood.Proofs.C01.extra_cell_invariance_top",
+    "Marwood.Proofs.C01.extra_cells_appended",
+    "Marwood.Proofs.C01.or_cyclic_display_differs",
+    "Marwood.Proofs.C01.t01_2_or",
+    "Marwood.Proofs.C01.t01_2_cond_test",
+    "Marwood.Proofs.C01.t01_2_cond_arrow",
+    "Marwood.Proofs.C01.agrees_observables",
+    "Marwood.Proofs.C01.agrees_unique",
+    "Marwood.Proofs.C01.agrees_printed",
+    "Marwood.Proofs.C01.t01_2_case_key",
+    "Marwood.Proofs.C01.t01_2_case_else",
+    "Marwood.Proofs.C01.case_else_unbound_key_differs",
+    "Marwood.Proofs.C01.t01_2_case_body",
+    "Marwood.Proofs.C01.t01_2_case_arrow",
+    "Marwood.Spec.Eval.Derived.case_datum_agrees",
+    "Marwood.Spec.Eval.Derived.memvTest_eval",
+    "Marwood.Spec.Eval.Extra.recSim",
+    "Marwood.Spec.Eval.Extra.binder_agree",
+    "Marwood.Spec.Eval.wf_evalN",
+    "Marwood.Spec.Eval.wf_initSt",
+    "Marwood.Spec.Eval.guardN_le_evalN",
+    "Marwood.Spec.Eval.valToDatum_cyclic_fuel_matters",
     "Marwood.Proofs.C01.compile_correct_stage1_partial",
     "Marwood.Lemmas.CompileCorrect.compileExpr_correct",
     "Marwood.Lemmas.CompileCorrect.compileDefine_correct",
@@ -292,6 +339,21 @@ THEOREMS = [
     "Marwood.Spec.Eval.Prelude.or_expansions",
     "Marwood.Spec.Eval.Prelude.let_expansion",
     "Marwood.Spec.Eval.Prelude.case_final_arrow_expansion",
+    # stage 3 continued: laws on the concrete heap, error case, recursion through internal definitions
+    "Marwood.Proofs.C01.laws3_concrete",
+    "Marwood.Proofs.C01.listLaws3_concrete",
+    "Marwood.Proofs.C01.demo_concrete_stage3_rest_runs",
+    "Marwood.Proofs.C01.demo_concrete_stage3_define_runs",
+    "Marwood.Proofs.C01.compile_correct_stage3_error_partial",
+    "Marwood.Proofs.C01.closure_call_stage3_error_partial",
+    "Marwood.Proofs.C01.errLaws3_toy",
+    "Marwood.Proofs.C01.errLaws3_concrete",
+    "Marwood.Proofs.C01.demo_stage3_define_init_fails",
+    "Marwood.Proofs.C01.stage3_rec_block_intro",
+    "Marwood.Proofs.C01.compile_correct_stage3_rec_partial",
+    "Marwood.Proofs.C01.body_stage3_rec_block_partial",
+    "Marwood.Proofs.C01.demo_stage3_selfrec_runs",
+    "Marwood.Proofs.C01.demo_stage3_mutrec_runs",
 ]
 
 FIXED_NOTE = ("four defects repaired in /repo (fix: 9750711 macros expanded inside quasiquoted data, f2dec47 free variables of "
